@@ -216,7 +216,11 @@ fn module(case: Arc<Case>) -> RpcModule<Arc<Case>> {
 
 async fn run_case(line: &str) -> String {
 	let case = Arc::new(Case::new());
-	let server = match Server::builder().build("127.0.0.1:0").await {
+	// one loop-back address per harness process: a port freed by a stopped server can then only be re-used by
+	// this process (whose earlier servers are gone), never by a server of a concurrently running history
+	let pid = std::process::id();
+	let bind = format!("127.{}.{}.1:0", 1 + (pid / 250) % 250, pid % 250);
+	let server = match Server::builder().build(bind.as_str()).await {
 		Ok(s) => s,
 		Err(_) => return "FATAL bind".into(),
 	};
